@@ -2,6 +2,8 @@
 
 (a) the same closure compiled in two separate interpreters with different working directory, output directory,
     spelling of the input path and PYTHONHASHSEED -> all six outputs byte-identical;
+(a') history: a long-lived process compiles a sequence of 2-4 DIFFERENT closures; each output of each closure must be
+    byte-identical to what a fresh process writes for that closure, and the combined YAML written last goes through (b);
 (b) NAME_combined.yaml recompiled through the documented command line (which honours the embedded
     IMPORT_COREDEFS: false) -> same ids, hashes, sizes, layouts and constants as the original;
 (c) core_defs.yaml (+ data_logger.yaml, quick_logger.yaml) compiled now == the shipped pyrtma/core_defs.py
@@ -31,11 +33,14 @@ RULE = ("(a)+(b): Hypothesis draws well-formed definition closures (vlib.defgen.
         ".py/.js/.m/.h/_combined.yaml/.txt outputs must be byte-identical.  The combined YAML of run 1 is then recompiled with "
         "`python -m pyrtma.compile` and the resulting Python module (every int/float/str global; type_id, type_hash, type_size, "
         "ctypes.sizeof, alignment and every field's name/kind/width/length/offset of every class), the JavaScript dump and the MATLAB "
-        "value tree must equal those of the original.  (c): the shipped core YAML files are compiled with the options the package uses "
+        "value tree must equal those of the original.  (a') sequences of 2-4 different closures (plain builder of the generator, seeded from "
+        "VERIF_SEED) are compiled one after the other by ONE long-lived interpreter and each also by a fresh interpreter (same black mode, "
+        "different PYTHONHASHSEED): all six outputs of every closure must be byte-identical, and the combined YAML the long-lived process "
+        "wrote for the last closure goes through the same command-line round trip.  (c): the shipped core YAML files are compiled with the options the package uses "
         "(output name core_defs, IMPORT_COREDEFS false) and compared with the shipped core_defs.py by ast.dump and by the imported "
         "signature; then N generated single edits (constant value, field type, message id, field order, field name, array length, "
         "module/host id, alias target) of a scratch copy must each make that comparison fail.  Non-trivial = accepted program with >=2 "
-        "files and >=1 padded struct (a)/(b), or a detected edit (c); distinct = (graph shape, #files, options, black?, classes) or (edit kind, target).")
+        "files and >=1 padded struct (a)/(b), a closure compiled after >=1 different closure in the same process (a'), or a detected edit (c); distinct = (graph shape, #files, options, black?, classes) or (edit kind, target).")
 ASSUME = [
     "the first line of the .txt info output is a comment holding the output file's own path relative to the definition root; it is compared after removing that path (it must differ when the output directory differs)",
     "both runs of a pair use the same black mode; black itself is assumed deterministic",
@@ -123,6 +128,73 @@ def diff_py_views(a, b, what_a="original", what_b="recompiled"):
 # (a) + (b)
 
 
+def roundtrip(E: L.Examiner, program: G.Program, comb_src: str, orig_out: str, w: L.Work, res: Result = None, tag=""):
+    """(b): recompile the combined YAML comb_src through the command line and compare with the outputs in orig_out."""
+    out = []
+    opts = program.compile_kwargs()
+    cdir = w.sub(f"combined{tag}")
+    comb = os.path.join(cdir, "gdefs_combined.yaml")
+    shutil.copyfile(comb_src, comb)
+    out_c = w.sub(f"combined{tag}/out")
+    extra = ([] if opts["validate_alignment"] else ["--no_val_align"]) + ([] if opts["auto_pad"] else ["--no_auto_pad"])
+    try:
+        rc, text = L.compile_cli(comb, out_c, "gdefs", cwd=cdir, extra=extra)
+    except L.ToolTimeout:
+        if res is not None:
+            res.inconclusive += 1
+        return out
+    if rc != 0:
+        lines = [l for l in text.strip().splitlines() if l.strip() and not l.startswith("INFO")]
+        tail = " | ".join(lines[-3:])
+        cls = "general"
+        def kind(n):
+            try:
+                return program.by_name(n).kind
+            except Exception:
+                return None
+
+        m = re.search(r"Unable to find definition for (\w+) in (\w+)", text)
+        if m and kind(m.group(1)) == "message" and kind(m.group(2)) == "struct":
+            cls = "struct-reuses-imported-message"
+        m = re.search(r"Unable to resolve alias (\w+): (\w+)", text)
+        if m and kind(m.group(1)) == "alias" and kind(m.group(2)) == "struct":
+            cls = "alias-of-imported-struct"
+        m = re.search(r"Unknown type specified \((\w+)\): (\w+)=>", text)
+        if m and kind(m.group(1)) == "message" and kind(m.group(2)) == "struct":
+            cls = "struct-contains-message"
+        out.append((f"combined/recompile-fails/{cls}", f"the combined YAML of an accepted closure does not compile (rc {rc}): {tail[:300]}"))
+        return out
+    try:
+        va = _py_view(E.py.load(os.path.join(orig_out, "gdefs.py"), fork=True))
+        vb = _py_view(E.py.load(os.path.join(out_c, "gdefs.py"), fork=True))
+        pd = diff_py_views(va, vb)
+        for aspect, text in pd:
+            rsv = "/reserved-ids" if "_RESERVED_" in text else ""
+            out.append((f"combined/{aspect}{rsv}", f"recompiling the combined YAML changes the Python output: {text}"[:400]))
+        if pd:
+            return out  # the other languages repeat the same difference
+        ja, jb = E.js.load(os.path.join(orig_out, "gdefs.js")), E.js.load(os.path.join(out_c, "gdefs.js"))
+        if ja != jb:
+            out.append(("combined/js-differs", "recompiling the combined YAML changes what the JavaScript module exports"))
+    except L.ToolTimeout:
+        if res is not None:
+            res.inconclusive += 1
+        return out
+    try:
+        ign = () if opts["import_coredefs"] else (L.MATLAB_HEADER_REF,)
+        ma = L.matlab_run(open(os.path.join(orig_out, "gdefs.m")).read(), ignore_undefined=ign)
+        mb = L.matlab_run(open(os.path.join(out_c, "gdefs.m")).read(), ignore_undefined=ign)
+        if ma != mb:
+            out.append(("combined/matlab-differs", "recompiling the combined YAML changes the value the MATLAB script builds"))
+    except L.MatlabUnsupported:
+        raise
+    except L.MatlabError:
+        pass  # a script that does not run is C15's subject
+    if res is not None:
+        res.count("combined-roundtrips")
+    return out
+
+
 def run_program(E: L.Examiner, program: G.Program, black: bool, hashseed: int, res: Result = None):
     """-> [(key, what)]"""
     out = []
@@ -164,67 +236,7 @@ def run_program(E: L.Examiner, program: G.Program, black: bool, hashseed: int, r
                             f"give different gdefs{L.OUT_EXT[ext]}: {_first_diff(a, b)}"))
             if res is not None:
                 res.count("output-pairs-compared")
-        # ---- (b) combined YAML through the command line
-        cdir = w.sub("combined")
-        comb = os.path.join(cdir, "gdefs_combined.yaml")
-        shutil.copyfile(os.path.join(out_a, "gdefs_combined.yaml"), comb)
-        out_c = w.sub("combined/out")
-        extra = ([] if opts["validate_alignment"] else ["--no_val_align"]) + ([] if opts["auto_pad"] else ["--no_auto_pad"])
-        try:
-            rc, text = L.compile_cli(comb, out_c, "gdefs", cwd=cdir, extra=extra)
-        except L.ToolTimeout:
-            if res is not None:
-                res.inconclusive += 1
-            return out
-        if rc != 0:
-            lines = [l for l in text.strip().splitlines() if l.strip() and not l.startswith("INFO")]
-            tail = " | ".join(lines[-3:])
-            cls = "general"
-            def kind(n):
-                try:
-                    return program.by_name(n).kind
-                except Exception:
-                    return None
-
-            m = re.search(r"Unable to find definition for (\w+) in (\w+)", text)
-            if m and kind(m.group(1)) == "message" and kind(m.group(2)) == "struct":
-                cls = "struct-reuses-imported-message"
-            m = re.search(r"Unable to resolve alias (\w+): (\w+)", text)
-            if m and kind(m.group(1)) == "alias" and kind(m.group(2)) == "struct":
-                cls = "alias-of-imported-struct"
-            m = re.search(r"Unknown type specified \((\w+)\): (\w+)=>", text)
-            if m and kind(m.group(1)) == "message" and kind(m.group(2)) == "struct":
-                cls = "struct-contains-message"
-            out.append((f"combined/recompile-fails/{cls}", f"the combined YAML of an accepted closure does not compile (rc {rc}): {tail[:300]}"))
-            return out
-        try:
-            va = _py_view(E.py.load(os.path.join(out_a, "gdefs.py"), fork=True))
-            vb = _py_view(E.py.load(os.path.join(out_c, "gdefs.py"), fork=True))
-            pd = diff_py_views(va, vb)
-            for aspect, text in pd:
-                rsv = "/reserved-ids" if "_RESERVED_" in text else ""
-                out.append((f"combined/{aspect}{rsv}", f"recompiling the combined YAML changes the Python output: {text}"[:400]))
-            if pd:
-                return out  # the other languages repeat the same difference
-            ja, jb = E.js.load(os.path.join(out_a, "gdefs.js")), E.js.load(os.path.join(out_c, "gdefs.js"))
-            if ja != jb:
-                out.append(("combined/js-differs", "recompiling the combined YAML changes what the JavaScript module exports"))
-        except L.ToolTimeout:
-            if res is not None:
-                res.inconclusive += 1
-            return out
-        try:
-            ign = () if opts["import_coredefs"] else (L.MATLAB_HEADER_REF,)
-            ma = L.matlab_run(open(os.path.join(out_a, "gdefs.m")).read(), ignore_undefined=ign)
-            mb = L.matlab_run(open(os.path.join(out_c, "gdefs.m")).read(), ignore_undefined=ign)
-            if ma != mb:
-                out.append(("combined/matlab-differs", "recompiling the combined YAML changes the value the MATLAB script builds"))
-        except L.MatlabUnsupported:
-            raise
-        except L.MatlabError:
-            pass  # a script that does not run is C15's subject
-        if res is not None:
-            res.count("combined-roundtrips")
+        out += roundtrip(E, program, os.path.join(out_a, "gdefs_combined.yaml"), out_a, w, res)
     return out
 
 
@@ -260,6 +272,98 @@ def shard_programs(seed, n, idx, n_black):
         cross = ("alias-of-imported-struct", "alias-of-imported-struct-field", "struct-contains-message", "string-special", "prefix-names")
         hyp_run(body, st.one_of(G.programs(), G.programs(skeleton=True), G.programs(skeleton=True, rich=True), G.programs(skeleton=True, allow=cross)),
                 seed, n, res, collect=True)
+    finally:
+        E.close()
+        L.cleanup()
+    return res
+
+
+# ------------------------------------------------------------------------------------------------
+# (a') history: one process compiles a sequence of different closures; each must come out as from a fresh process
+
+SEQ_KW = [dict(), dict(skeleton=True), dict(skeleton=True, rich=True), dict(rich=True),
+          dict(skeleton=True, allow=("alias-of-imported-struct", "alias-of-imported-struct-field", "struct-contains-message", "string-special", "prefix-names"))]
+
+
+def run_sequence(E: L.Examiner, programs, black: bool, hashseed: int, res: Result = None):
+    """-> [(key, what, index)]: closure i is compiled by a long-lived worker that has already compiled closures 0..i-1
+    and, independently, by a fresh interpreter; the six outputs must be byte-identical.  The combined YAML the worker
+    wrote for the LAST closure then goes through the command-line round trip (b)."""
+    out = []
+    with L.Work() as w:
+        worker = L.CompileWorker(cwd=w.sub("worker_cwd"), hashseed=str(hashseed))
+        try:
+            compiled_before = 0
+            for i, program in enumerate(programs):
+                opts = program.compile_kwargs()
+                root = program.write(w.sub(f"tree{i}"))
+                out_w, out_f = w.sub(f"out_worker{i}"), w.sub(f"out_fresh{i}")
+                try:
+                    rcw, errw = worker.compile(root, out_w, "gdefs", black, **opts)
+                    rcf, errf = L.compile_in_subprocess(root, out_f, "gdefs", w.dir, 0, black, **opts)
+                except L.ToolTimeout:
+                    if res is not None:
+                        res.inconclusive += 1
+                    return out
+                if rcw != 0 or rcf != 0:
+                    if (rcw == 0) != (rcf == 0):
+                        out.append(("history/accepted-once", f"closure {i} of a sequence: the long-lived process says rc {rcw} ({errw}), a fresh process rc {rcf}: "
+                                    f"{(errf or '').strip().splitlines()[-1:]}", i))
+                    elif res is not None:
+                        res.count("sequence-closure-not-accepted")
+                    continue
+                if res is not None:
+                    res.count("sequence-closures-compared")
+                    if compiled_before:
+                        res.count("sequence-closures-after-another")
+                        res.shape("seq", program.shape, len(program.files), tuple(sorted(opts.items())), black, compiled_before,
+                                  tuple(sorted(c for c in program.classes if c in ("needs-padding", "reuse", "alias-field", "multi-path", "host-id", "string-const",
+                                                                                   "reserved-range-dash", "alias-of-imported-struct", "struct-contains-message"))))
+                for ext in EXTS:
+                    a, b = _read(os.path.join(out_f, "gdefs" + L.OUT_EXT[ext])), _read(os.path.join(out_w, "gdefs" + L.OUT_EXT[ext]))
+                    if ext == "txt":
+                        a, b = _norm_txt(a), _norm_txt(b)
+                    if a != b:
+                        out.append((f"history/bytes-differ/{ext}", f"closure {i} compiled by a process that had compiled {compiled_before} other closure(s) before gives a "
+                                    f"gdefs{L.OUT_EXT[ext]} different from a fresh process' ({len(a)} vs {len(b)} bytes): {_first_diff(a, b)}", i))
+                compiled_before += 1
+                if i == len(programs) - 1:
+                    for key, what in roundtrip(E, program, os.path.join(out_w, "gdefs_combined.yaml"), out_f, w, res, tag=f"_seq{i}"):
+                        out.append((key.replace("combined/", "combined-late/", 1) if not key.startswith("combined/recompile-fails/") else key,
+                                    f"(combined YAML written as closure {i} of a sequence) {what}", i))
+        finally:
+            worker.close()
+    return out
+
+
+def make_sequence(seed, length):
+    rnd = random.Random(seed)
+    progs = []
+    for k in range(length):
+        kw = SEQ_KW[rnd.randrange(len(SEQ_KW))]
+        progs.append(G.random_program(rnd.randrange(1 << 30), **kw))
+    return progs
+
+
+def shard_sequences(seed, n, idx, n_black):
+    res = Result()
+    E = L.Examiner()
+    rnd = random.Random(seed)
+    try:
+        for k in range(n):
+            sseed, length = rnd.randrange(1 << 30), rnd.choice([2, 2, 3, 3, 4])
+            progs = make_sequence(sseed, length)
+            black = k < n_black
+            hs = 1 + rnd.randrange(4000000)
+            fnd = run_sequence(E, progs, black, hs, res)
+            res.evaluations += length
+            res.count("sequences")
+            res.count(f"sequence-length/{length}")
+            for key, what, i in fnd:
+                # the trace keeps the closures up to the one that failed
+                res.add_finding(key, what, {"key": key, "kind": "sequence", "programs": [p.to_json() for p in progs[: i + 1]], "black": black, "hashseed": hs})
+            if len(res.samples) < 1:
+                res.sample({"sequence": [{"shape": p.shape, "options": p.options, "files": len(p.files)} for p in progs], "black": black, "hashseed": hs})
     finally:
         E.close()
         L.cleanup()
@@ -448,7 +552,7 @@ def shard_core(seed, n_edits):
 
 
 def shard(kind, *a):
-    return shard_core(*a) if kind == "core" else shard_programs(*a)
+    return {"core": shard_core, "programs": shard_programs, "sequences": shard_sequences}[kind](*a)
 
 
 def run(ctx: RunContext) -> int:
@@ -459,6 +563,9 @@ def run(ctx: RunContext) -> int:
     for i in range(16):
         n_black = (1 if i < 4 else 0) if ctx.quick else 2
         jobs.append(("programs", derive_seed(ctx.seed, i), n, i, n_black))
+    nseq_jobs = 8 if ctx.quick else 16
+    for i in range(nseq_jobs):
+        jobs.append(("sequences", derive_seed(ctx.seed, 200 + i), ctx.scale(1, 6), i, 1 if i == 0 else 0))
     res = run_shards(shard, jobs)
     return conclude(ctx, res, RULE, ASSUME, t0)
 
@@ -466,7 +573,10 @@ def run(ctx: RunContext) -> int:
 def replay_trace(trace: dict):
     E = L.Examiner()
     try:
-        if trace.get("kind") == "core":
+        if trace.get("kind") == "sequence":
+            progs = [G.Program.from_json(p) for p in trace["programs"]]
+            fnd = [(k, w) for k, w, _i in run_sequence(E, progs, trace.get("black", False), trace.get("hashseed", 12345), None)]
+        elif trace.get("kind") == "core":
             fnd = [(f"core/{a}", t) for a, t in compare_core(E, os.path.join(_pkg(), "core_defs"))]
         else:
             fnd = run_program(E, G.Program.from_json(trace["program"]), trace.get("black", False), trace.get("hashseed", 12345), None)
